@@ -5,7 +5,7 @@ DescVerdict(e) ==
   LET t == e.tag  b == e.body IN
   IF e.maxbr # MaxBitrate(t, b) THEN "max-bitrate"
   ELSE IF e.es_bitrate # BitRate(t, b) THEN "es-bitrate"
-  ELSE IF ~e.es_among_others_same THEN "stream-level-answer-depends-on-the-position-among-other-descriptors"
+  ELSE IF ~e.es_among_others_same THEN "stream-level-answer-depends-on-position-among-other-descriptors-or-on-the-descriptor-type-of-the-caller"
   ELSE IF e.lang # LangCode(t, b) THEN "iso639-language"
   ELSE IF e.audiotype # AudioType(t, b) THEN "iso639-audio-type"
   ELSE IF e.ttml_lang # TtmlLang(t, b) THEN "ttml-language"
